@@ -10,29 +10,34 @@
  *                    make this an OBLIGATION on the code - a reallocation would leave those pointers dangling - otherwise a model bound
  *   back/size/begin/end, ~vector : destroys every element in order with the REAL translated destructor, releases the buffer
  * Heap accounting: attaching a row counts as one allocation (gh_allocs), releasing it as one deallocation (gh_frees).
- * Instantiate per element type:  CV_VEC_POOL(tag, T, CAP, NBUF)  then the CV_VEC_* function macros under the unit's aliases.
+ * Instantiate per element type:  CV_VEC_POOL(tag, VT, T, CAP)  then the CV_VEC_* function macros under the unit's aliases.
  * Trusted base. */
-struct cv_vec3 { void *start; void *finish; void *eos; };
-#define CV_VEC(v) ((struct cv_vec3 *)(v))
+#ifndef CV_VEC_IMPL
+#define CV_VEC_IMPL(v) ((v)->base__Vector_base._M_impl.base_allocator)     /* _Vector_impl_data as ir2c names it; f0/f1/f2 = start/finish/end_of_storage */
+#endif
+#define CV_VS(v) (CV_VEC_IMPL(v).f0)
+#define CV_VF(v) (CV_VEC_IMPL(v).f1)
+#define CV_VE(v) (CV_VEC_IMPL(v).f2)
 unsigned gh_vec_attached, gh_vec_released;
-#define CV_VEC_POOL(tag, T, CAP, NBUF) \
-  static T cvv_##tag##_pool[NBUF][CAP]; static unsigned cvv_##tag##_used; \
-  static void cvv_##tag##_attach(struct cv_vec3 *v, cv_i64 n) { \
-    __CPROVER_assert(cvv_##tag##_used < NBUF, "model bound: number of buffers of this vector type"); __CPROVER_assert(n <= CAP, "model bound: vector capacity"); \
-    T *b = cvv_##tag##_pool[cvv_##tag##_used++]; gh_allocs++; gh_vec_attached++; v->start = b; v->finish = b; v->eos = b + n; }
-#define CV_VEC_CTOR(fn, VT)            void fn(VT *v) { CV_VEC(v)->start = 0; CV_VEC(v)->finish = 0; CV_VEC(v)->eos = 0; }
-#define CV_VEC_MOVE(fn, VT)            void fn(VT *v, VT *o) { *CV_VEC(v) = *CV_VEC(o); CV_VEC(o)->start = 0; CV_VEC(o)->finish = 0; CV_VEC(o)->eos = 0; }
-#define CV_VEC_SIZE(fn, VT, T)         cv_i64 fn(VT *v) { return (T *)CV_VEC(v)->finish - (T *)CV_VEC(v)->start; }
-#define CV_VEC_BEGIN(fn, VT, T)        T *fn(VT *v) { return (T *)CV_VEC(v)->start; }
-#define CV_VEC_END(fn, VT, T)          T *fn(VT *v) { return (T *)CV_VEC(v)->finish; }
-#define CV_VEC_BACK(fn, VT, T)         T *fn(VT *v) { __CPROVER_assert(CV_VEC(v)->finish != CV_VEC(v)->start, "std::vector::back() on a non-empty vector"); return (T *)CV_VEC(v)->finish - 1; }
-#define CV_VEC_RESERVE(fn, VT, T, tag) void fn(VT *v, cv_i64 n) { if (n <= (cv_i64)((T *)CV_VEC(v)->eos - (T *)CV_VEC(v)->start)) return; \
-    __CPROVER_assert(CV_VEC(v)->start == 0, "model bound: reserve() grows only a vector that has no buffer yet"); cvv_##tag##_attach(CV_VEC(v), n); }
-#define CV_VEC_DTOR(fn, VT, T, CAP, ELEM_DTOR) void fn(VT *v) { T *b = (T *)CV_VEC(v)->start; cv_i64 n = (T *)CV_VEC(v)->finish - b; \
+/* two buffers per element type at most (one-dimensional typed arrays: CBMC keeps them field-sensitive) */
+#define CV_VEC_POOL(tag, VT, T, CAP) \
+  static T cvv_##tag##_pool0[CAP]; static T cvv_##tag##_pool1[CAP]; static unsigned cvv_##tag##_used; \
+  static void cvv_##tag##_attach(VT *v, cv_i64 n) { \
+    __CPROVER_assert(cvv_##tag##_used < 2, "model bound: number of buffers of this vector type"); __CPROVER_assert(n <= CAP, "model bound: vector capacity"); \
+    T *b = cvv_##tag##_used == 0 ? cvv_##tag##_pool0 : cvv_##tag##_pool1; cvv_##tag##_used++; gh_allocs++; gh_vec_attached++; CV_VS(v) = b; CV_VF(v) = b; CV_VE(v) = b + n; }
+#define CV_VEC_CTOR(fn, VT)            void fn(VT *v) { CV_VS(v) = 0; CV_VF(v) = 0; CV_VE(v) = 0; }
+#define CV_VEC_MOVE(fn, VT)            void fn(VT *v, VT *o) { CV_VS(v) = CV_VS(o); CV_VF(v) = CV_VF(o); CV_VE(v) = CV_VE(o); CV_VS(o) = 0; CV_VF(o) = 0; CV_VE(o) = 0; }
+#define CV_VEC_SIZE(fn, VT, T)         cv_i64 fn(VT *v) { return CV_VF(v) - CV_VS(v); }
+#define CV_VEC_BEGIN(fn, VT, T)        T *fn(VT *v) { return CV_VS(v); }
+#define CV_VEC_END(fn, VT, T)          T *fn(VT *v) { return CV_VF(v); }
+#define CV_VEC_BACK(fn, VT, T)         T *fn(VT *v) { __CPROVER_assert(CV_VF(v) != CV_VS(v), "std::vector::back() on a non-empty vector"); return CV_VF(v) - 1; }
+#define CV_VEC_RESERVE(fn, VT, T, tag) void fn(VT *v, cv_i64 n) { if (n <= (cv_i64)(CV_VE(v) - CV_VS(v))) return; \
+    __CPROVER_assert(CV_VS(v) == 0, "model bound: reserve() grows only a vector that has no buffer yet"); cvv_##tag##_attach(v, n); }
+#define CV_VEC_DTOR(fn, VT, T, CAP, ELEM_DTOR) void fn(VT *v) { T *b = CV_VS(v); cv_i64 n = CV_VF(v) - b; \
     for (cv_i64 i = 0; i < CAP; i++) if (i < n) ELEM_DTOR(b + i); \
-    if (b != 0) { gh_frees++; gh_vec_released++; } CV_VEC(v)->start = 0; CV_VEC(v)->finish = 0; CV_VEC(v)->eos = 0; }
+    if (b != 0) { gh_frees++; gh_vec_released++; } CV_VS(v) = 0; CV_VF(v) = 0; CV_VE(v) = 0; }
 /* slot for emplace_back: PINNED = 1 for element types whose addresses are registered elsewhere */
-#define CV_VEC_SLOT(v, T, CAP, tag, PINNED) ({ if (CV_VEC(v)->start == 0) cvv_##tag##_attach(CV_VEC(v), CAP); \
-    if (PINNED) __CPROVER_assert(CV_VEC(v)->finish != CV_VEC(v)->eos, "emplace_back stays within the reserved capacity (a reallocation would move elements that other objects point to)"); \
-    else __CPROVER_assert(CV_VEC(v)->finish != CV_VEC(v)->eos, "model bound: vector capacity"); \
-    T *cv_slot = (T *)CV_VEC(v)->finish; CV_VEC(v)->finish = cv_slot + 1; cv_slot; })
+#define CV_VEC_SLOT(v, T, CAP, tag, PINNED) ({ if (CV_VS(v) == 0) cvv_##tag##_attach(v, CAP); \
+    if (PINNED) __CPROVER_assert(CV_VF(v) != CV_VE(v), "emplace_back stays within the reserved capacity (a reallocation would move elements that other objects point to)"); \
+    else __CPROVER_assert(CV_VF(v) != CV_VE(v), "model bound: vector capacity"); \
+    T *cv_slot = CV_VF(v); CV_VF(v) = cv_slot + 1; cv_slot; })
